@@ -89,7 +89,11 @@ ExpExclPos  == LET dels == {fm.deletes[j] : j \in DOMAIN fm.deletes} IN
 Restricted(e) == SelectSeq([k \in DOMAIN e.x |-> <<k, e.x[k]>>], LAMBDA p : p[1] \notin ExpExclPos)
 XR(e) == LET r == Restricted(e) IN [j \in DOMAIN r |-> r[j][2]]
 
-C05Solve(e) ==
+C05Solve(e) == IF fm.ncols # Len(XR(e)) \/ \E k \in DOMAIN fm.rows : \E j \in DOMAIN fm.rows[k].e : fm.rows[k].e[j][1] \notin 1..Len(XR(e))
+  THEN \* the number of unknowns of the assembled system differs from the number of reported, non-excluded tensions:
+       \* the certificate cannot even be formed (verdicts stay total)
+       [fails |-> {"C05.dimension"}, kf |-> {}, hits |-> {"C05.solve"}, rejected |-> FALSE]
+  ELSE
   LET x == XR(e)
       n == Len(x)
       rows == fm.rows
@@ -193,7 +197,7 @@ DoSolveStress(e) ==
      IN EmitV(e, c05f \cup c16r \cup c01.fails \cup c16.fails \cup c03.fails \cup SetIf(raised /\ ~fixStress, "SOLVE.raised"),
               c01.kf \cup c03.kf \cup (IF Want("C05") THEN c05.kf ELSE {}) \cup SetIf(fixStress, "KF_FixStress:SOLVE.raised"),
               c05.hits \cup c01.hits \cup c16.hits \cup c03.hits, {}, c01.rejected \/ c03.rejected \/ outOfScope)
-  /\ sol' = IF e.raised # "" \/ fm = None \/ ~e.finite \/ ~e.in_range THEN None
+  /\ sol' = IF e.raised # "" \/ fm = None \/ ~e.finite \/ ~e.in_range \/ fm.ncols # Len(XR(e)) THEN None
             ELSE LET x == XR(e)
                      lamFree == IF Len(fm.rows) = 0 THEN 0 ELSE TDiv(SumRes(fm.rows, e.b, x, 1), 2 * Len(fm.rows))
                      inversion == 2 * Len(fm.rows) = Len(x) /\ e.opts.method = "default"
